@@ -372,7 +372,7 @@ def expand(task):
         if w["ids"] in ("given", "featuredict"):
             # valid ids that come with the graph are kept, not recomputed
             g0, _seg0 = worlds.make_graph(w, seed)
-            for p, key in (("C04", "track_id"), ("C05", "lineage_id")):
+            for p, key in (("C04", w["keys"]["track"]), ("C05", w["keys"]["lineage"])):
                 if p in cfg.props:
                     changed = {n: (g0.nodes[n][key], tracks.get_node_attr(n, key)) for n in g0.nodes
                                if g0.nodes[n][key] != tracks.get_node_attr(n, key)}
